@@ -57,7 +57,7 @@ Proof.
     cbv beta iota. rewrite len_cons_eqb0, idx0, Hf1, Hf3.
     destruct (is_wtx b0) eqn:Ew.
     + assert (Hww : w' + 1 <= w) by (apply Hwild; cbn [wildb]; rewrite Ew; reflexivity).
-      destruct inf as [|b1 inf]; unfold on_idx; [rewrite idx1_nil; leaf|]. rewrite idx1. leaf.
+      destruct inf as [|b1 inf]; unfold on_idx; [change (len [b0] <? 2) with true; leaf | rewrite idx1; leaf].
     + destruct (is_rack_other pn b0 && (i <=? n_nak k + 1)) eqn:Er; [leaf|].
       unfold after_wtx.
       destruct (negb (Z.land b0 1 =? pn)); [leaf|].
@@ -74,7 +74,7 @@ Proof.
     cbv beta iota. rewrite len_cons_eqb0, idx0, Hf2. cbn [andb].
     destruct (is_wtx b0) eqn:Ew.
     + assert (Hww : w' + 1 <= w) by (apply Hwild; cbn [wildb]; rewrite Ew; reflexivity).
-      destruct inf as [|b1 inf]; unfold on_idx; [rewrite idx1_nil; leaf|]. rewrite idx1. leaf.
+      destruct inf as [|b1 inf]; unfold on_idx; [change (len [b0] <? 2) with true; leaf | rewrite idx1; leaf].
     + destruct (negb (Z.land b0 1 =? pn)); [leaf|].
       unfold recv_check. destruct (negb (Z.land b0 16 =? 0)) eqn:Ec; [|leaf].
       assert (Hww : w' + 1 <= w) by (apply Hwild; cbn [wildb]; rewrite Ec; apply orb_true_r).
